@@ -165,6 +165,53 @@ def run(ctx):
         ctx.check(not extra, "C15-R2", "symbol-fields", "Symbol fields are the 6 known ones",
                   "Symbol has new field(s) %s: decide whether the inliner must preserve them" % extra)
 
+    # ------------------------------------------------------------------ R4 alias table is fully compressed before it is read
+    # expand_shortcuts reads the alias table with ONE look-up per symbol after uf_compress_all(); that is only right if
+    # uf_find(e) leaves every entry it touches pointing directly at the root it returns (full path compression, not
+    # path halving/splitting) and uf_compress_all calls it for every aliased entry.
+    uf = ctx.body(G + "uf_find")
+    ret_l = None
+    for (bi_, si_, k_, p_) in uf.defs().get(0, []):
+        if k_ == "assign" and p_["rv"] == "use":
+            pl_ = F.op_place(p_["o"])
+            ret_l = pl_[0] if pl_ and len(pl_) == 1 else None
+    stores = []
+    for bi_, t_ in uf.calls():
+        d_ = t_["f"].get("def", "")
+        if d_.endswith("Option::<T>::replace") and len(t_["args"]) == 2:
+            pl_ = F.op_place(t_["args"][1])
+            stores.append((bi_, pl_[0] if pl_ and len(pl_) == 1 else None))
+    for bi_, si_, st_ in uf.statements():
+        if st_["s"] == "assign" and len(st_["p"]) > 1 and st_["p"][0] == 1 and st_["r"].get("rv") == "agg" and isinstance(st_["r"].get("kind"), dict) \
+                and st_["r"]["kind"].get("variant") == "Some":
+            pl_ = F.op_place(st_["r"]["ops"][0])
+            stores.append((bi_, pl_[0] if pl_ and len(pl_) == 1 else None))
+        elif st_["s"] == "assign" and len(st_["p"]) > 1 and st_["p"][0] == 1 and st_["r"].get("rv") == "use":
+            # map[..] = <temp holding Some(x)>
+            e_ = uf.expr(st_["r"]["o"])
+            x_ = e_[2][0] if e_[0] == "agg" and e_[2] else None
+            stores.append((bi_, (x_[1] if x_ and x_[0] == "local" else (x_[1][0] if x_ and x_[0] == "place" and len(x_[1]) == 1 else None))))
+
+    def same_as_ret(l, depth=3):
+        if l is None or ret_l is None:
+            return False
+        if l == ret_l:
+            return True
+        ds_ = uf.defs().get(l, [])
+        if depth > 0 and len(ds_) == 1 and ds_[0][2] == "assign" and ds_[0][3]["rv"] == "use":
+            pl_ = F.op_place(ds_[0][3]["o"])
+            return bool(pl_) and len(pl_) == 1 and same_as_ret(pl_[0], depth - 1)
+        return False
+    bad = [bi_ for bi_, l_ in stores if not same_as_ret(l_)]
+    ctx.check(ret_l is not None and not bad, "C15-R4", "uf_find:compresses-to-root",
+              "every entry uf_find rewrites is set to the root it returns (%d store(s))" % len(stores),
+              "uf_find rewrites an alias entry with something other than the root it returns (path halving / splitting): after "
+              "uf_compress_all an alias chain of three or more steps still has an entry that points at an intermediate alias, which "
+              "expand_shortcuts reads with a single look-up", site=uf.where(bad[0]) if bad else uf.where())
+    uca = ctx.body(G + "uf_compress_all")
+    ctx.check(bool(uca.call_blocks(G + "uf_find")), "C15-R4", "uf_compress_all:finds-every-entry", "uf_compress_all calls uf_find for the aliased entries",
+              "uf_compress_all no longer calls uf_find", site=uca.where())
+
     # ---- R3 optimize is applied, before compile, exactly once per engine grammar
     cg = ctx.body("llguidance::earley::from_guidance::compile_grammar")
     opt = cg.call_blocks(GR + "::optimize")
